@@ -34,8 +34,8 @@ Inductive kase :=
    (A x = B) against the model's design matrices; the run (n_iter_max, tol) must store eW / efs *)
 | KCpLoop (n_iter : nat) (tol reg : Q) (R : nat) (so : list nat) (X y : tensor Q) (tape : list (list (tensor Q)))
           (eW : tensor Q) (efs : list (tensor Q))
-(* TuckerRegressor.fit: the loop with the passes played back from the tape of (core, factors) *)
-| KTkLoop (n_iter : nat) (tol : Q) (tape : list (tensor Q * list (tensor Q))) (eW : tensor Q)
+(* TuckerRegressor.fit: the same around the concrete factor and core blocks; tape of (core, factors) *)
+| KTkLoop (n_iter : nat) (tol reg : Q) (X y : tensor Q) (tape : list (tensor Q * list (tensor Q))) (eW : tensor Q)
 (* T.mean(X, axis=0) and the centring *)
 | KMean (X expected : tensor Q)
 (* the whole of CP_PLSR.fit with a fixed number of passes (tol = 0: never stops early; tol huge: stops after the
@@ -119,10 +119,19 @@ Definition cp_loop_run (n_iter : nat) (tol reg : Q) (R : nat) (so : list nat) (X
     (S (fst st), cp_sweep Zfx (solve_chk (0 <? fst st) kin newfs) (to_fx reg) Xz yz so R
                    (if fst st =? 0 then newfs else snd st)) in
   reg_fit sweep (fun st => Regress.cp_to_tensor Zfx (ones_fx R) (snd st)) znorm (zsmall (to_fx tol)) n_iter (0, []).
-Definition tk_loop_run (n_iter : nat) (tol : Q) (tape : list (tensor Q * list (tensor Q))) :=
-  reg_fit S (fun k => let e := nth (k - 1) tape (mk [] [], []) in
-                      Regress.tucker_to_tensor Zfx (t_to_fx (fst e)) (map t_to_fx (snd e)))
-          znorm (zsmall (to_fx tol)) n_iter 0.
+Definition tk_solve_chk (check : bool) (newb : tensor Z * list (tensor Z)) (i : nat) (A B : tensor Z) : tensor Z :=
+  let t := if i <? length (snd newb) then nth i (snd newb) (mk [] []) else fst newb in
+  let x := reshape [prod (shape t)] t in
+  if negb check || zt_close (zmatmul A x) B then x else mk [] [].
+Definition tk_loop_run (n_iter : nat) (tol reg : Q) (X y : tensor Q) (tape : list (tensor Q * list (tensor Q))) :=
+  let Xz := t_to_fx X in let yz := t_to_fx y in
+  let sweep := fun st : nat * (tensor Z * list (tensor Z)) =>
+    let e := nth (fst st) tape (mk [] [], []) in
+    let newb := (t_to_fx (fst e), map t_to_fx (snd e)) in
+    (S (fst st), tk_concrete_sweep Zfx (tk_solve_chk (0 <? fst st) newb) (to_fx reg) Xz yz
+                   (if fst st =? 0 then newb else snd st)) in
+  reg_fit sweep (fun st => Regress.tucker_to_tensor Zfx (fst (snd st)) (snd (snd st))) znorm (zsmall (to_fx tol)) n_iter
+          (0, (mk [] [], [])).
 Definition passes_eq {P} (a b : res (reg_stored (F:=Z) (P:=P))) (f : P -> nat) : bool :=
   match a, b with Ok x, Ok y => Nat.eqb (f (r_blocks x)) (f (r_blocks y)) | _, _ => false end.
 
@@ -159,10 +168,10 @@ Definition agree_k (k : kase) : bool :=
         | Err => false
         end
       else true
-  | KTkLoop n_iter tol tape eW =>
-      let lo := tk_loop_run n_iter (tol * (4 # 5))%Q tape in
-      let hi := tk_loop_run n_iter (tol * (5 # 4))%Q tape in
-      if passes_eq lo hi (fun k => k) then
+  | KTkLoop n_iter tol reg X y tape eW =>
+      let lo := tk_loop_run n_iter (tol * (4 # 5))%Q reg X y tape in
+      let hi := tk_loop_run n_iter (tol * (5 # 4))%Q reg X y tape in
+      if passes_eq lo hi fst then
         match lo with Ok st => qt_close ftol ftol (t_of_fx (r_weight_tensor st)) eW | Err => false end
       else true
   | KPlsrTransformY xm ym loads bs qs X Y e =>
